@@ -69,7 +69,8 @@ Definition C19_core_shell_split_stmt : Prop :=
     (NoDup ops -> forall x, In x (round_core ops n) -> ~ In x (round_shell ops n)).
 
 (** every round sketch class: core and shell together list every face once; every shell face has an
-    edge on the outer boundary, no core face has a point on it; the grid addresses every face once *)
+    edge on the outer boundary, no core face has a point on it; the grid addresses every face once and its
+    rows are rings, inner first: the first rows are exactly the core, the remaining rows exactly the shell *)
 Definition C19_core_shell_sketches_stmt : Prop :=
   forall e, In e round_sketches -> sketch_spec e.
 
@@ -91,14 +92,18 @@ Definition C19_tables_domain_stmt : Prop :=
      "QuarterSplineDisk"; "HalfSplineDisk"; "SplineDisk"; "QuarterSplineRing"; "HalfSplineRing"; "SplineRing";
      "QuarterSplineDisk_oval"; "HalfSplineDisk_oval"; "SplineDisk_oval";
      "QuarterSplineRing_oval"; "HalfSplineRing_oval"; "SplineRing_oval";
-     "Annulus_3"; "Annulus_4"; "Annulus_5"; "Annulus_6"; "Annulus_8"; "Annulus_12"]%string /\
+     "Annulus_3"; "Annulus_4"; "Annulus_5"; "Annulus_6"; "Annulus_7"; "Annulus_8"; "Annulus_9"; "Annulus_10";
+     "Annulus_11"; "Annulus_12"]%string /\
   map fst round_lofted =
     ["Cylinder"; "SemiCylinder"; "Frustum"; "Frustum_mid"; "Elbow"; "Cylinder.chain";
-     "ExtrudedRing_3"; "ExtrudedRing_8"; "ExtrudedRing_12"; "ExtrudedRing.expand"; "Cylinder.fill";
+     "ExtrudedRing_3"; "ExtrudedRing_4"; "ExtrudedRing_5"; "ExtrudedRing_6"; "ExtrudedRing_7"; "ExtrudedRing_8";
+     "ExtrudedRing_9"; "ExtrudedRing_10"; "ExtrudedRing_11"; "ExtrudedRing_12"; "ExtrudedRing.expand"; "Cylinder.fill";
      "RoundSolidShape(OneCoreDisk)"; "RoundSolidShape(QuarterDisk)"; "RoundSolidShape(HalfDisk)";
      "RoundSolidShape(FourCoreDisk)"; "RoundSolidShape(WrappedDisk)"; "RoundSolidShape(Oval)";
      "RoundSolidShape(QuarterSplineDisk)"; "RoundSolidShape(HalfSplineDisk)"; "RoundSolidShape(SplineDisk)"]%string /\
-  map fst round_solids = ["EighthSphere"; "Hemisphere"; "RevolvedRing_4"; "RevolvedRing_8"]%string.
+  map fst round_solids =
+    ["EighthSphere"; "Hemisphere"; "RevolvedRing_3"; "RevolvedRing_4"; "RevolvedRing_5"; "RevolvedRing_6";
+     "RevolvedRing_7"; "RevolvedRing_8"; "RevolvedRing_9"; "RevolvedRing_10"; "RevolvedRing_11"; "RevolvedRing_12"]%string.
 
 (** ** statements: delete / chop of an addressed operation *)
 
